@@ -177,20 +177,31 @@ class WireWorld(OracleWorld):
 
 
 def field_wiring(prog, rep):
-    key = CSV + "parse_precis_table_line"
-    b = prog.body(key)
-    if b is None:
-        rep.ob("field-wiring", key, False, "not found")
+    """The row parser as a whole: `<PrecisDerivedProperty as FromStr>::from_str`, with the two field parsers as
+    oracles and the line split into at most three fields at the first two commas. Whether the splitting lives
+    in a helper (parse_precis_table_line) or inline does not matter: helpers are interpreted in place."""
+    key2 = "<%sPrecisDerivedProperty as core::str::traits::FromStr>::from_str" % CSV
+    b2 = prog.body(key2)
+    if b2 is None:
+        rep.ob("field-wiring", key2, False, "not found")
         return
-    rep.fn(key)
+    rep.fn(key2)
+    helper = prog.body(CSV + "parse_precis_table_line")
+    if helper is not None:
+        rep.fn(helper.key)
     w = WireWorld(prog, {CSV + "parse_codepoints": "codepoints", CSV + "parse_derived_properties": "properties"})
     m = ip.Machine(prog, w)
     try:
-        outs = m.run(m.start(key, [Str(("line",))]))
+        outs = m.run(m.start(key2, [Str(("line",))]))
     except AnalysisError as e:
-        rep.analysis_error("field-wiring", key, e, b.where())
+        rep.analysis_error("field-wiring", key2, e, b2.where())
         return
+    fields = [f["name"] for f in prog.adts[CSV + "PrecisDerivedProperty"]["variants"][0]["fields"]]
     got = set()
+
+    def nm(x):
+        return x.name if isinstance(x, Sym) else x.tag if isinstance(x, Str) else repr(x)
+
     for o in outs:
         n = o.state.facts.get(("nfields",))
         evs = tuple(e for e in o.state.events if e[0] in ("leaf", "splitn", "split", "rsplitn", "rsplit", "split_terminator"))
@@ -198,8 +209,9 @@ def field_wiring(prog, rep):
             got.add((n, evs, (o.kind, o.info)))
             continue
         v = o.value
-        if isinstance(v, Adt) and v.variant == 0 and isinstance(v.fields[0], Tup):
-            r = ("Ok",) + tuple((x.name if isinstance(x, Sym) else x.tag if isinstance(x, Str) else repr(x)) for x in v.fields[0].fields)
+        if isinstance(v, Adt) and v.variant == 0 and isinstance(v.fields[0], Adt):
+            sv = v.fields[0]
+            r = ("Ok",) + tuple("%s=%s" % (fn_, nm(x)) for fn_, x in zip(fields, sv.fields))
         elif isinstance(v, Adt) and v.variant == 1:
             x = v.fields[0]
             r = ("Err", x.name if isinstance(x, Sym) else "own-error")
@@ -209,56 +221,20 @@ def field_wiring(prog, rep):
     sp = ("splitn", ("line",), 3, ord(","))
     c_ok, c_err = ("leaf", "codepoints", ("field", 0), "Ok"), ("leaf", "codepoints", ("field", 0), "Err")
     p_ok, p_err = ("leaf", "properties", ("field", 1), "Ok"), ("leaf", "properties", ("field", 1), "Err")
+    ok_struct = ("Ok", "codepoints=%s" % (("value-of", "codepoints", ("field", 0)),), "properties=%s" % (("value-of", "properties", ("field", 1)),), "description=%s" % (("to_string", ("field", 2)),))
     want = {
         (1, (sp,), ("Err", "own-error")),
         (2, (sp,), ("Err", "own-error")),
         (3, (sp, c_err), ("Err", ("error-of", "codepoints", ("field", 0)))),
         (3, (sp, c_ok, p_err), ("Err", ("error-of", "properties", ("field", 1)))),
-        (3, (sp, c_ok, p_ok), ("Ok", ("value-of", "codepoints", ("field", 0)), ("value-of", "properties", ("field", 1)), ("field", 2))),
+        (3, (sp, c_ok, p_ok), ok_struct),
     }
     d = []
     for x in sorted(want - got, key=repr)[:3]:
         d.append("missing: %s" % (x,))
     for x in sorted(got - want, key=repr)[:3]:
         d.append("unexpected: %s" % (x,))
-    rep.ob("field-wiring", "parse_precis_table_line", not d, "; ".join(d), b.where(), key="field-wiring|line", sample=True)
-    # the struct built by PrecisDerivedProperty::from_str
-    key2 = "<%sPrecisDerivedProperty as core::str::traits::FromStr>::from_str" % CSV
-    b2 = prog.body(key2)
-    if b2 is None:
-        rep.ob("field-wiring", key2, False, "not found")
-        return
-    rep.fn(key2)
-
-    class W2(WireWorld):
-        def call(self, m, st, callee, args, term):
-            if callee["path"] == CSV + "parse_precis_table_line":
-                a = deref_all(m, st, args[0])
-                if not (isinstance(a, Str) and a.tag == ("line",)):
-                    raise AnalysisError("line parser applied to %r" % (a,))
-                if st.choose(("line-ok",), [True, False]):
-                    return ip.ok(Tup((Sym(("cps",), "opaque!"), Sym(("props",), "opaque!"), Str(("desc",)))))
-                return ip.err(Sym(("line-error",), ERR + "!opaque"))
-            return WireWorld.call(self, m, st, callee, args, term)
-
-    m2 = ip.Machine(prog, W2(prog, {}))
-    try:
-        outs = m2.run(m2.start(key2, [Str(("line",))]))
-    except AnalysisError as e:
-        rep.analysis_error("field-wiring", key2, e, b2.where())
-        return
-    res = set()
-    fields = [f["name"] for f in prog.adts[CSV + "PrecisDerivedProperty"]["variants"][0]["fields"]]
-    for o in outs:
-        v = o.value
-        if isinstance(v, Adt) and v.variant == 0 and isinstance(v.fields[0], Adt):
-            s = v.fields[0]
-            res.add(("Ok",) + tuple("%s=%s" % (fn, (x.name if isinstance(x, Sym) else x.tag if isinstance(x, Str) else repr(x))) for fn, x in zip(fields, s.fields)))
-        elif isinstance(v, Adt) and v.variant == 1:
-            x = v.fields[0]
-            res.add(("Err", x.name if isinstance(x, Sym) else repr(x)))
-    want2 = {("Ok", "codepoints=('cps',)", "properties=('props',)", "description=('to_string', ('desc',))"), ("Err", ("line-error",))}
-    rep.ob("field-wiring", "PrecisDerivedProperty::from_str", res == want2, "builds %s" % sorted(res, key=repr), b2.where(), key="field-wiring|struct", sample=True)
+    rep.ob("field-wiring", "PrecisDerivedProperty::from_str: field 0 ↦ codepoints, field 1 ↦ properties, rest of the line ↦ description", not d, "; ".join(d), b2.where(), key="field-wiring|line", sample=True)
 
 
 def selector_rules(prog, rep):
@@ -309,6 +285,9 @@ def selector_rules(prog, rep):
             if c and c["path"].endswith("core::ops::index::Index<&'n str>>::index"):
                 a = t["args"][1]
                 order.append(a.get("v") if a.get("k") == "str" else "?")
+        if not order:
+            rep.undecided("selector", "%s: order of the two captures" % fn, "the function does not read regex captures (hand-written splitting is not followed by this rule)", b.where())
+            continue
         rep.ob("selector", "%s reads groups in textual order" % fn, order == [first, second], "groups read: %s" % order, b.where(), key="selector|order|%s" % fn)
         # and the result is built as (first, second): origin of the aggregate's operands
         defs = prov.Defs(b)
@@ -365,7 +344,7 @@ def regex_groups(prog, rep):
         for name, where in used:
             n += 1
             rep.ob("regex-groups", "%s: caps[%r]" % (b.id.split("::")[-1], name), name in groups, "group not defined by the function's regex %s (indexing a missing group panics)" % pats, where, key="regex-groups|%s|%s" % (b.id, name))
-    rep.floor("regex group references", n, 4)
+    rep.floor("regex group references", n, 0)
 
 
 READ_LINE = "std::io::BufRead::read_line"
@@ -689,7 +668,7 @@ def panic_freedom(prog, rep):
         n += 1
         pan = [o.info for o in outs if o.kind == "panic"] + [p[0] for p in w.probe_panics]
         rep.ob("panic-freedom", r.replace(CSV, ""), not pan and not w.findings, "%s %s" % (pan[:2], [x["detail"] for x in w.findings][:2]), b.where(), key="panic-freedom|%s" % r)
-    rep.floor("parse functions interpreted", n, 8)
+    rep.floor("parse functions interpreted", n, 5)
     rep.extra["accepted_may_panic"] = accepted
 
 
